@@ -1,4 +1,5 @@
 import FFVerif.Props.C15
+import FFVerif.Pins.pinGgmExpand
 #print axioms FFVerif.C15.swap_identity
 #print axioms FFVerif.C15.complete_of_swap
 #print axioms FFVerif.C15.liou_real
@@ -20,3 +21,4 @@ import FFVerif.Props.C15
 #print axioms FFVerif.C15.cp_verdict_of_nonneg
 #print axioms FFVerif.C15.cp_verdict_false_of_neg
 #print axioms FFVerif.C15.superop_source_shape
+#print axioms FFVerif.Pins.pinGgmExpand
